@@ -676,3 +676,108 @@ fn ctor_slice(src: &str, offs: &Offsets, f: &FnRef, kept: &[String]) -> Result<(
     out.push_str(&format!("        {} {{ {} }}\n    }}", &src[ps..pe], fields_text.join(", ")));
     Ok((out, stmts.len() - 1 - included.len()))
 }
+
+
+/// `//@trait <file> <Trait> methods=a,b,c [super=A+B]` — a stand-in trait derived from the real trait
+/// definition: every listed method keeps its signature and gets an uninterpreted spec twin
+/// `sp_<m>` (what the concrete model returns); `ensures r == self.sp_<m>(args)`.
+pub fn extract_trait(ctx: &mut Ctx, blk: &Block) -> Result<(String, Value), String> {
+    if blk.args.len() < 2 {
+        return Err("trait: expected <file> <Trait>".into());
+    }
+    let (file, name) = (blk.args[0].clone(), blk.args[1].clone());
+    ctx.load(&file)?;
+    let src = ctx.src(&file);
+    let ast = ctx.ast(&file);
+    let offs = Offsets::new(src);
+    let tr = ast
+        .items
+        .iter()
+        .find_map(|it| match it {
+            syn::Item::Trait(t) if t.ident == name => Some(t),
+            _ => None,
+        })
+        .ok_or(format!("lost anchor: trait `{name}` not found"))?;
+    let methods: Vec<String> = blk.opt("methods").unwrap_or("").split(',').filter(|s| !s.is_empty()).map(|s| s.to_string()).collect();
+    let sup = blk.opt("super").map(|s| format!(": {}", s.replace('+', " + "))).unwrap_or_default();
+    let mut out = format!("pub trait {name}{sup} {{\n");
+    let mut notes = Vec::new();
+    for m in &methods {
+        let f = tr
+            .items
+            .iter()
+            .find_map(|ti| match ti {
+                syn::TraitItem::Fn(f) if f.sig.ident == m => Some(f),
+                _ => None,
+            })
+            .ok_or(format!("lost anchor: trait {name} has no method `{m}`"))?;
+        if f.default.is_some() {
+            notes.push(json!({"rule": "N15", "line": line_of(src, offs.range(src, f.sig.span()).0), "note": format!("provided method `{m}` treated as abstract")}));
+        }
+        let (gs, ge) = if f.sig.generics.params.is_empty() {
+            (0, 0)
+        } else {
+            offs.range(src, f.sig.generics.span())
+        };
+        let generics = &src[gs..ge];
+        let mut spec_params = Vec::new();
+        let mut exec_params = Vec::new();
+        let mut args = Vec::new();
+        for a in &f.sig.inputs {
+            match a {
+                syn::FnArg::Receiver(r) => {
+                    let (s, e) = offs.range(src, r.span());
+                    exec_params.push(src[s..e].to_string());
+                    spec_params.push("&self".to_string());
+                }
+                syn::FnArg::Typed(t) => {
+                    let (s, e) = offs.range(src, t.span());
+                    exec_params.push(src[s..e].to_string());
+                    let pn = match &*t.pat {
+                        syn::Pat::Ident(i) => i.ident.to_string(),
+                        _ => return Err(format!("construct outside rule list: pattern parameter in trait method {m}")),
+                    };
+                    match &*t.ty {
+                        syn::Type::Reference(r) => {
+                            if let syn::Type::Slice(sl) = &*r.elem {
+                                let (s, e) = offs.range(src, sl.elem.span());
+                                spec_params.push(format!("{pn}: Seq<{}>", &src[s..e]));
+                                args.push(format!("{pn}@"));
+                            } else {
+                                let (s, e) = offs.range(src, r.elem.span());
+                                spec_params.push(format!("{pn}: {}", &src[s..e]));
+                                args.push(format!("*{pn}"));
+                            }
+                        }
+                        ty => {
+                            let (s, e) = offs.range(src, ty.span());
+                            spec_params.push(format!("{pn}: {}", &src[s..e]));
+                            args.push(pn);
+                        }
+                    }
+                }
+            }
+        }
+        let ret = match &f.sig.output {
+            syn::ReturnType::Type(_, t) => {
+                let (s, e) = offs.range(src, t.span());
+                src[s..e].to_string()
+            }
+            syn::ReturnType::Default => return Err(format!("trait method {m} returns ()")),
+        };
+        out.push_str(&format!("    spec fn sp_{m}{generics}({}) -> {ret};\n", spec_params.join(", ")));
+        out.push_str(&format!(
+            "    fn {m}{generics}({}) -> (r: {ret})\n        ensures r == self.sp_{m}({});\n",
+            exec_params.join(", "),
+            args.join(", ")
+        ));
+    }
+    out.push_str("}\n");
+    let (s0, e0) = offs.range(src, tr.span());
+    let rep = json!({
+        "item": format!("trait {name} (stand-in derived from the definition; methods {})", methods.join(",")), "file": file,
+        "src_lines": [line_of(src, s0), line_of(src, e0)], "src_bytes": [s0, e0],
+        "rewrites": notes,
+    });
+    Ok((out, rep))
+}
